@@ -30,7 +30,7 @@ one() {
   if ! timeout 240 unshare -n sh -c 'ip link set lo up; go test -vet=off -count=1 ./... >/dev/null 2>&1'; then
     printf '%s\t%s\t%s\t%s\t%s\tkilled-by-tests\t-\n' "$id" "$f" "$line" "$op" "$desc"; cd /; rm -rf $d; return
   fi
-  fired=$(/verif/bin/xcheck -prop all -repo $d/src -verif $3 2>&1 | grep -E '^(VIOLATED|UNDECIDED|CHECKER)' | head -4 | sed 's/ at .*//' | tr '\n' ';')
+  fired=$(${XCHECK:-/verif/bin/xcheck} -prop all -repo $d/src -verif $3 2>&1 | grep -E '^(VIOLATED|UNDECIDED|CHECKER)' | head -4 | sed 's/ at .*//' | tr '\n' ';')
   if [ -n "$(echo $fired | tr -d ' ;')" ]; then st=caught; else st=SURVIVED; fired=-; fi
   printf '%s\t%s\t%s\t%s\t%s\t%s\t%s\n' "$id" "$f" "$line" "$op" "$desc" "$st" "$fired"
   cd /; rm -rf $d
